@@ -19,8 +19,10 @@ Good(e, exp) == /\ e.res.crash = ""
 
 TInit == l = 1 /\ bad = <<>>
 TOp == /\ l <= Len(TraceLog)
-       /\ LET exp == Expect(Ev)
-          IN bad' = IF Good(Ev, exp) THEN bad ELSE Append(bad, [l |-> l, id |-> Ev.id, why |-> "result", expect |-> exp])
+       /\ IF "op" \notin DOMAIN Ev      \* a case that emits several events died: the crash event carries the case only
+          THEN bad' = Append(bad, [l |-> l, id |-> Ev.id, why |-> "crash", expect |-> [ok |-> TRUE, shape |-> <<>>, elems |-> <<>>]])
+          ELSE LET exp == Expect(Ev)
+               IN bad' = IF Good(Ev, exp) THEN bad ELSE Append(bad, [l |-> l, id |-> Ev.id, why |-> "result", expect |-> exp])
        /\ l' = l + 1
 TFinish == /\ l = Len(TraceLog) + 1
            /\ ndJsonSerialize(IOEnv.OUT, bad)
